@@ -383,6 +383,7 @@ func c9check(ip *interp.Interp, c *c9case) (key, detail string) {
 		{"digest round trip", "m.A@(%{}){|k, v| [k, v]} == m", "true"},
 		{"digest of repeated pairs keeps the first of equal keys", "[(m.A + m.A.rev)@(%{}){|k, v| [k, v]}.len, %{}.digest(m.A + m.A).len, (m.A + m.A)@(%{}){|k, v| [k, v]} == m]", fmt.Sprintf("[%d, %d, true]", len(ordered), len(ordered))},
 		{"keyBy over repeated keys", "(m.keys + m.keys).keyBy {|k| k}.len", fmt.Sprint(len(ordered))},
+		{"Arr#M of repeated pairs keeps the first of equal keys", "[(m.A + m.A).M.len, (m.A + m.A.rev).M == m, (m.A + m.A).M.keys == m.keys, (m.A + m.A).M.values == m.values]", fmt.Sprintf("[%d, true, true, true]", len(ordered))},
 	} {
 		if k, d := expect(t.acc, t.expr, t.want); k != "" {
 			return k, d
